@@ -70,7 +70,7 @@ Proof.
   destruct (exchange c CIdentify k) as [k1 x]. cbn in *. subst x.
   change (bytes_eqb ident_body einvalid_body) with false. cbv iota.
   change (json_parse ident_body) with (Some true). cbv iota.
-  assert (H2 : good_link (k1 <| k_info := true |>)).
+  assert (H2 : good_link (k1 <| k_info ::= (fun known => known || true) |>)).
   { destruct H1 as (A & B & C & D). repeat split; cbn; auto; apply D. }
   destruct (send_all_good c rc _ G H2) as (H3 & E3 & C3). split; auto. split; auto.
   rewrite C3. cbn. auto.
